@@ -822,8 +822,10 @@ def history_section(ctx, n=None):
                 try:
                     # (k % 4 == 3 drops the first d-table; the shared generator forgets it: at most 7 commits)
                     # every third of these establishes schema, schema format and encoding inside the WAL
+                    if i % 6 == 2:
+                        cfg["page_size"] = 512       # many schema rows on small pages: interior root, several leaves
                     h = H.make_history(sc.path(f"h{i}"), cfg, r, n_commits=r.randint(3, 7),
-                                       kind="fresh_wal" if i % 6 == 0 else "ddl")
+                                       kind="fresh_wal" if i % 6 == 0 else ("wide_schema" if i % 6 == 2 else "ddl"))
                 except sqlite3.Error as e:
                     ctx.notes.append(f"history generator error skipped: {e}")
                     continue
